@@ -343,6 +343,51 @@ func runC11(c *Ctx) {
 		ok, bad := allOrigins(a[1], oIsValue(paramOf(f, 0)), oCall(-1, "rt/client.mangleContentType"))
 		c.obI("R11.3", ci, "content-type-from-media-type", ok, "the Content-Type header is the chosen media type (with the boundary for multipart)", "origin "+describeOrigin(bad))
 	}
+	// the payload branch: the header is set unconditionally, and a payload that is no reader goes through the producer
+	{
+		isPayload := func(v ssa.Value) bool {
+			return vFieldLoad(clientReqT, "payload", nil)(v) || vFieldLoadO(clientReqT, "payload")(v)
+		}
+		hasPayload := factNil(isPayload, false)
+		var gate *ssa.If
+		for _, b := range f.Blocks {
+			if iff, ok := lastInstr(b).(*ssa.If); ok && hasPayload(iff.Cond, true) {
+				gate = iff
+			}
+		}
+		nrs := callsIn(f, "net/http.NewRequestWithContext", "net/http.NewRequest")
+		c.obF("R11.3", f, "payload-branch", gate != nil && len(nrs) == 1, "buildHTTP has a payload branch and builds one http.Request", "")
+		if gate != nil && len(nrs) == 1 {
+			noPayload := factNil(isPayload, true)
+			isCTSet := func(in ssa.Instruction) bool {
+				ci, ok := in.(ssa.CallInstruction)
+				if !ok || calleeName(ci.Common()) != "(net/http.Header).Set" {
+					return false
+				}
+				_, a := callArgs(ci.Common())
+				k, _ := constString(a[0])
+				return k == "Content-Type"
+			}
+			c.obI("R11.3", gate, "payload-always-labelled", !pathExists(f, gate, nrs[0], noPayload, isCTSet), "whenever there is a payload the Content-Type header is set to the chosen media type, unconditionally (a stale header left by the params writer, or a method outside POST/PUT/PATCH/DELETE, cannot leave the body mislabelled)", "a path with a payload reaches http.NewRequest without the Content-Type header having been set")
+			isReader := factBool(func(v ssa.Value) bool {
+				ex, ok := v.(*ssa.Extract)
+				if !ok || ex.Index != 1 {
+					return false
+				}
+				ta, ok := ex.Tuple.(*ssa.TypeAssert)
+				if !ok || !isPayload(ta.X) {
+					return false
+				}
+				t := typeStr(ta.AssertedType)
+				return t == "io.Reader" || t == "io.ReadCloser"
+			}, true)
+			isProduce := func(in ssa.Instruction) bool {
+				ci, ok := in.(ssa.CallInstruction)
+				return ok && ci.Common().IsInvoke() && ci.Common().Method.Name() == "Produce"
+			}
+			c.obI("R11.3", gate, "payload-through-producer", !pathExists(f, gate, nrs[0], anyFact(noPayload, isReader), isProduce), "a payload that is not a reader is always encoded by the producer chosen for the media type (no Go type of payload bypasses it)", "a path with a non-reader payload reaches http.NewRequest without the producer having run")
+		}
+	}
 	c.obF("R11.3", f, "sets-content-type", nCT >= 3, "each body-carrying path sets the Content-Type", fmt.Sprintf("%d sites", nCT))
 	mc := p.Fn("rt/client.mangleContentType")
 	for _, r := range returnsOf(mc) {
